@@ -25,6 +25,7 @@ const (
 	aRem        // inner % c
 	aNil        // 1 if value == nil else 0
 	aStr        // s[idx] for an (immutable) string s
+	aTab        // G[idx] for a package-level table G of integers that no function of the module writes
 )
 
 type Atom struct {
@@ -98,6 +99,8 @@ func (P *Prover) atom(kind int, val ssa.Value, inner Poly, c int64, uns bool) *A
 		key = fmt.Sprintf("rem(%s)%%%d", inner.key(), c)
 	case aStr:
 		key = fmt.Sprintf("str%p[%s]", val, inner.key())
+	case aTab:
+		key = fmt.Sprintf("tab%p[%s]", val, inner.key())
 	}
 	if a, ok := P.byKey[key]; ok {
 		return a
@@ -326,6 +329,13 @@ func (P *Prover) lenOf(x ssa.Value) Poly {
 		if b, ok := s.Call.Value.(*ssa.Builtin); ok && b.Name() == "append" && len(s.Call.Args) == 2 {
 			return P.lenOf(s.Call.Args[0]).add(P.lenOf(s.Call.Args[1]), 1)
 		}
+	case *ssa.UnOp:
+		// the length of a package-level table that the module never writes is that of its initialiser
+		if g, ok := s.X.(*ssa.Global); ok && s.Op == token.MUL && P.c != nil && P.c.immutableTable(g) {
+			if n, ok := P.c.tableLen(g); ok {
+				return constP(n)
+			}
+		}
 	case *ssa.Convert:
 		// []byte(string) / string([]byte) keep the length
 		_, fromStr := s.X.Type().Underlying().(*types.Basic)
@@ -394,6 +404,23 @@ func (P *Prover) poly(v ssa.Value) Poly {
 	case *ssa.Call:
 		if b, ok := x.Call.Value.(*ssa.Builtin); ok && b.Name() == "len" {
 			return P.lenOf(x.Call.Args[0])
+		}
+	case *ssa.UnOp:
+		if x.Op == token.MUL && isInt(x.Type()) {
+			if ia, ok := x.X.(*ssa.IndexAddr); ok {
+				var g *ssa.Global
+				switch b := ia.X.(type) {
+				case *ssa.Global:
+					g = b
+				case *ssa.UnOp:
+					if b.Op == token.MUL {
+						g, _ = b.X.(*ssa.Global)
+					}
+				}
+				if g != nil && P.c != nil && P.c.immutableTable(g) {
+					return atomP(P.atom(aTab, g, P.poly(ia.Index), 0, isUnsigned(x.Type())).id)
+				}
+			}
 		}
 	case *ssa.Index:
 		if bt, ok := x.X.Type().Underlying().(*types.Basic); ok && bt.Info()&types.IsString != 0 {
@@ -504,6 +531,14 @@ func (P *Prover) condFacts(cond ssa.Value, truth bool) []Poly {
 		if f := c.Call.StaticCallee(); f != nil && f.String() == "strings.HasPrefix" && truth {
 			return []Poly{P.lenOf(c.Call.Args[1]).add(P.lenOf(c.Call.Args[0]), -1)}
 		}
+		// a module predicate (one bool result): what holds at every return that yields `truth`
+		if f := c.Call.StaticCallee(); f != nil && P.c != nil && P.c.inModule(f) && f != P.fn && f.Blocks != nil && !P.inPost {
+			if res := f.Signature.Results(); res.Len() == 1 {
+				if b, ok := res.At(0).Type().Underlying().(*types.Basic); ok && b.Kind() == types.Bool {
+					return P.predFacts(c, f, truth)
+				}
+			}
+		}
 	case *ssa.Extract:
 		// ok := helper(...) : facts that hold at every return of the helper where that result is `truth`
 		if call, isCall := c.Tuple.(*ssa.Call); isCall && !P.inPost {
@@ -511,6 +546,91 @@ func (P *Prover) condFacts(cond ssa.Value, truth bool) []Poly {
 		}
 	}
 	return nil
+}
+
+// predFacts: the facts that hold in the callee on every path to a return whose value is (or may be)
+// `truth`, translated to the caller's terms. With several such paths only the facts common to all of
+// them are kept.
+func (P *Prover) predFacts(call *ssa.Call, f *ssa.Function, truth bool) []Poly {
+	P.inPost = true
+	defer func() { P.inPost = false }()
+	CP := predProver(P.c, f)
+	type path struct{ facts []Poly }
+	var paths []path
+	add := func(blk *ssa.BasicBlock, extra []Poly) {
+		fs := append([]Poly{}, CP.factsAt(blk)...)
+		fs = append(fs, extra...)
+		paths = append(paths, path{fs})
+	}
+	isTruth := func(v ssa.Value) (known bool, val bool) {
+		if k, ok := v.(*ssa.Const); ok && k.Value != nil {
+			return true, k.Value.String() == "true"
+		}
+		return false, false
+	}
+	for _, b := range f.Blocks {
+		ret, ok := b.Instrs[len(b.Instrs)-1].(*ssa.Return)
+		if !ok || len(ret.Results) != 1 {
+			continue
+		}
+		rv := ret.Results[0]
+		if known, val := isTruth(rv); known {
+			if val == truth {
+				add(b, nil)
+			}
+			continue
+		}
+		if phi, isPhi := rv.(*ssa.Phi); isPhi && phi.Block() == b {
+			for i, e := range phi.Edges {
+				pred := b.Preds[i]
+				ef := CP.edgeFacts(pred, b)
+				if known, val := isTruth(e); known {
+					if val == truth {
+						add(pred, ef)
+					}
+					continue
+				}
+				add(pred, append(ef, CP.condFacts(e, truth)...))
+			}
+			continue
+		}
+		add(b, CP.condFacts(rv, truth))
+	}
+	if len(paths) == 0 {
+		return []Poly{constP(1)} // the predicate never yields this value: the edge is infeasible
+	}
+	common := paths[0].facts
+	for _, p := range paths[1:] {
+		keys := map[string]bool{}
+		for _, q := range p.facts {
+			keys[q.key()] = true
+		}
+		var keep []Poly
+		for _, q := range common {
+			if keys[q.key()] {
+				keep = append(keep, q)
+			}
+		}
+		common = keep
+	}
+	var out []Poly
+	for _, q := range common {
+		if t, ok := translatePolyX(CP, q, f, P, call.Call.Args, nil); ok {
+			out = append(out, t)
+		}
+	}
+	return out
+}
+
+var predProvers = map[*ssa.Function]*Prover{}
+
+func predProver(c *Ctx, f *ssa.Function) *Prover {
+	if p, ok := predProvers[f]; ok {
+		return p
+	}
+	p := NewProver(c, f)
+	predProvers[f] = p
+	return p
 }
 
 // postCache: callee -> key -> candidate facts proved at the relevant returns
@@ -1759,7 +1879,7 @@ func (P *Prover) showAtom(a *Atom) string {
 		return "(" + P.showTerm(a.inner) + ")/" + fmt.Sprint(a.c)
 	case aRem:
 		return "(" + P.showTerm(a.inner) + ")%" + fmt.Sprint(a.c)
-	case aStr:
+	case aStr, aTab:
 		return valName(a.val) + "[" + P.showTerm(a.inner) + "]"
 	}
 	return "?"
